@@ -23,7 +23,13 @@
         `if isQuicConnErr(err) { t.forgetConn(c) }`: after a connection-level failure the transport
         drops the connection, so the next `getConn` dials (a closing quic connection fails its streams
         BEFORE its context is done; `getConn` alone would hand it out again).
-      DoHTransport.ExchangeContext : no loop; one `select` on ctx.Done() / the result.
+      DoHTransport.ExchangeContext : one `select` on ctx.Done() / the result of `exchange`, which is
+        for { r, connErr, err := u.exchangeOnce(…)         -- one http round trip
+              if connErr && (reused.Load() || isQuicConnErr(err) || isHttp3Err(err)) && retry < 3 && ctx.Err() == nil {
+                retry++; continue }
+              return r, err }
+        (`reused`: httptrace GotConn.Reused; `connErr`: RoundTrip or the body read failed, not a bad
+        status or an undecodable body; that `ctx` is the transport's own 6 s context.)
 
   What one attempt does (where the connection came from, whether the exchange on it
   failed, whether the caller's context is done when the loop looks at it) is NOT
@@ -64,8 +70,13 @@ structure Attempt where
   forced : Option (Option Nat)
   /-- … and what `ctxIsDone(ctx)` answers after that -/
   forcedDone : Bool
-  /-- (QUIC) the failure of this attempt is a connection-level error (`isQuicConnErr`) -/
+  /-- the failure of this attempt is a QUIC connection-level error (`isQuicConnErr`); for DoH also:
+      an `*http3.Error` (`isHttp3Err`: what quic-go/http3 makes of a connection close for the requests
+      that were in flight) -/
   connErr : Bool
+  /-- (DoH) the failure is one of the RESPONSE that was received (bad status, undecodable body),
+      not of the connection -/
+  respErr : Bool
   deriving DecidableEq, Repr
 
 /-- attempt number ↦ what happens in it. Arbitrary. -/
@@ -153,11 +164,32 @@ def quicLoop (o : Oracle) (retry i : Nat) (forgot : Bool) : Out :=
       else ⟨none, i + 1⟩
 termination_by 5 - retry
 
-/-- `DoHTransport.ExchangeContext`: one round trip raced against the caller's context
-    (`select { case <-ctx.Done(): … case res := <-resChan: … }`). -/
-def dohOnce (o : Oracle) : Out :=
-  if (o 0).get.isErr then ⟨none, 1⟩
-  else if (o 0).ctxDone then ⟨none, 1⟩ else ⟨(o 0).res, 1⟩
+/-- `DoHTransport.ExchangeContext` / `exchange`. The caller's context is only looked at by the outer
+    `select`: an attempt with `ctxDone` does not end before the caller's deadline, the caller gets
+    the context's error. (Assumption: the caller's deadline is not later than the transport's own
+    6 s context, so `ctx.Err() == nil` holds whenever the loop looks at it.) -/
+def dohLoop (o : Oracle) (retry i : Nat) : Out :=
+  let a := o i
+  if a.ctxDone then ⟨none, i + 1⟩            -- case <-ctx.Done(): return nil, context.Cause(ctx)
+  else
+    -- r, connErr, err := u.exchangeOnce(httptrace.WithClientTrace(ctx, trace), rawQuery)
+    if !a.get.isErr && a.res.isSome then ⟨a.res, i + 1⟩
+    else
+      let connErr := !a.respErr
+      let reused := a.get == .pooled
+      if _h : retry < 3 then
+        if connErr && (reused || a.connErr) then dohLoop o (retry + 1) (i + 1)
+        else ⟨none, i + 1⟩
+      else ⟨none, i + 1⟩
+termination_by 3 - retry
+
+/-- a DoH attempt as the common loop sees it: retried (budget permitting) = "pooled failure",
+    reported = "fresh failure" -/
+def dohView (a : Attempt) : Attempt :=
+  if a.ctxDone then { a with get := .fresh, res := none }
+  else if !a.get.isErr && a.res.isSome then a
+  else if !a.respErr && (a.get == .pooled || a.connErr) then { a with get := .pooled, res := none }
+  else { a with get := .fresh, res := none }
 
 /-- the common shape: `lim` = number of retries allowed (5, 5, 6). Attempt number and
     retry counter coincide (both start at 0 and are incremented together). -/
@@ -178,12 +210,12 @@ inductive Kind where
   | pipeline | reuse | quic | doh
   deriving DecidableEq, Repr
 
-/-- retries allowed by each loop (`retry < 5`, `retry <= 5`, `retry < 5`, none) -/
+/-- retries allowed by each loop (`retry < 5`, `retry <= 5`, `retry < 5`, `retry < 3`) -/
 def Kind.lim : Kind → Nat
   | .pipeline => 5
   | .reuse => 6
   | .quic => 5
-  | .doh => 0
+  | .doh => 3
 
 /-- the reuse loop's attempts as they really happen: from retry 6 on the pool is not consulted -/
 def reuseEff (o : Oracle) : Oracle := fun i => if i ≤ 5 then o i else forcedDial (o i)
@@ -199,11 +231,12 @@ def eff (k : Kind) (o : Oracle) : Oracle :=
   match k with
   | .reuse => reuseEff o
   | .quic => quicEff o
-  | _ => o
+  | .doh => fun i => dohView (o i)
+  | .pipeline => o
 
 /-- attempts `0 … poolLim` take a pooled connection when the pool offers one -/
 def Kind.poolLim : Kind → Nat
-  | .doh => 0
+  | .doh => 3
   | _ => 5
 
 /-- `ExchangeContext` of a transport of kind `k` under oracle `o` -/
@@ -212,7 +245,7 @@ def exchange (k : Kind) (o : Oracle) : Out :=
   | .pipeline => pipelineLoop o 0 0
   | .reuse => reuseLoop o 0 0
   | .quic => quicLoop o 0 0 false
-  | .doh => dohOnce o
+  | .doh => dohLoop o 0 0
 
 /-- dials started during attempts `0 … n-1` -/
 def dialsUpTo (o : Oracle) : Nat → Nat
@@ -416,7 +449,8 @@ def Sel.hasCtxArm (s : Sel) : Bool :=
     source  p pooled connection · f freshly dialled · g no connection
     p/f behaviours: ok reply · fin / rst peer closes after reading the query · gar undecodable frame ·
         idle peer closed it while idle (p only) · sil silence · half half a frame then silence ·
-        kill (QUIC) the whole connection fails with a connection-level error
+        kill (QUIC) the whole connection fails with a connection-level error ·
+        resp (DoH) a response arrives but is bad (status, undecodable body)
     g behaviours: R dial refused · B dial never completes (caller's deadline ends the wait) ·
         C pool / transport closed
   `sil`, `half`, `B` end with the caller's context: `ctxDone = true`. -/
@@ -425,17 +459,19 @@ def healthyDial : Option (Option Nat) := some (some 1)
 
 def attemptOfTok (s : String) : Option Attempt :=
   match s with
-  | "pok" => some ⟨.pooled, some 1, false, healthyDial, false, false⟩
-  | "pfin" | "prst" | "pgar" | "pidle" => some ⟨.pooled, none, false, healthyDial, false, false⟩
-  | "pkill" => some ⟨.pooled, none, false, healthyDial, false, true⟩
-  | "psil" | "phalf" => some ⟨.pooled, none, true, healthyDial, false, false⟩
-  | "fok" => some ⟨.fresh, some 1, false, healthyDial, false, false⟩
-  | "ffin" | "frst" | "fgar" => some ⟨.fresh, none, false, some none, false, false⟩
-  | "fkill" => some ⟨.fresh, none, false, some none, false, true⟩
-  | "fsil" | "fhalf" => some ⟨.fresh, none, true, some none, true, false⟩
-  | "gR" => some ⟨.dialErr, none, false, none, false, false⟩
-  | "gB" => some ⟨.dialErr, none, true, none, true, false⟩
-  | "gC" => some ⟨.poolErr, none, false, healthyDial, false, false⟩
+  | "pok" => some ⟨.pooled, some 1, false, healthyDial, false, false, false⟩
+  | "pfin" | "prst" | "pgar" | "pidle" => some ⟨.pooled, none, false, healthyDial, false, false, false⟩
+  | "pkill" => some ⟨.pooled, none, false, healthyDial, false, true, false⟩
+  | "presp" => some ⟨.pooled, none, false, healthyDial, false, false, true⟩
+  | "psil" | "phalf" => some ⟨.pooled, none, true, healthyDial, false, false, false⟩
+  | "fok" => some ⟨.fresh, some 1, false, healthyDial, false, false, false⟩
+  | "ffin" | "frst" | "fgar" => some ⟨.fresh, none, false, some none, false, false, false⟩
+  | "fkill" => some ⟨.fresh, none, false, some none, false, true, false⟩
+  | "fresp" => some ⟨.fresh, none, false, some none, false, false, true⟩
+  | "fsil" | "fhalf" => some ⟨.fresh, none, true, some none, true, false, false⟩
+  | "gR" => some ⟨.dialErr, none, false, none, false, false, false⟩
+  | "gB" => some ⟨.dialErr, none, true, none, true, false, false⟩
+  | "gC" => some ⟨.poolErr, none, false, healthyDial, false, false, false⟩
   | _ => none
 
 /-- what a dial does in the world of a script: the behaviour of its first f- or g-token
@@ -452,7 +488,7 @@ def scriptOfStr (s : String) : Option (List Attempt) := do
   pure (l.map fun a => { a with forced := d.1, forcedDone := d.2 })
 
 /-- beyond the script: no pooled connection is left and the server is healthy -/
-def defaultAttempt : Attempt := ⟨.fresh, some 1, false, healthyDial, false, false⟩
+def defaultAttempt : Attempt := ⟨.fresh, some 1, false, healthyDial, false, false, false⟩
 
 def oracleOf (l : List Attempt) : Oracle := fun i => l.getD i defaultAttempt
 
@@ -492,7 +528,7 @@ def predict (k : Kind) (o : Oracle) (obs : String) : Obs :=
 
   * returns no later than the deadline plus slack, whatever the server does;
   * a failure on a pooled connection while a healthy server is reachable (context live):
-    retried — at most `lim` times — and succeeds;
+    retried — at most `lim` times — and succeeds; this holds for EVERY transport, DoH included;
   * QUIC: a connection that is dying (streams fail with a connection-level error before its context
     is done) is not handed out again: the retry dials and, with a healthy server, succeeds;
   * connection-reuse transports: however many stale connections the pool holds, if a dial reaches
@@ -535,12 +571,17 @@ def quicKillThenDial (l : List Attempt) : Bool :=
   decide (j ≤ 4) && isStale a && a.connErr &&
     ((l.getD (j + 1) defaultAttempt).forced.getD none).isSome
 
-def spec (k : Kind) (l : List Attempt) (o : Obs) : Bool :=
+/-- the script as the clauses below read it: for DoH "stale pooled connection" means a failure that is a
+    connection error on a reused connection (or a QUIC connection error), "fresh failure" any other -/
+def specView (k : Kind) (l : List Attempt) : List Attempt :=
+  if k == .doh then l.map dohView else l
+
+def specCore (k : Kind) (l : List Attempt) (o : Obs) : Bool :=
   o.t != "late" &&
   (match (if plainPrefix k l then freshFailureAt k.poolLim l else none) with
    | some j => !o.ok && (match o.att with | some a => decide (a ≤ j + 1) | none => true)
    | none => true) &&
-  (if k != .doh && plainPrefix k l && staleThenHealthy k.poolLim l then o.ok else true) &&
+  (if plainPrefix k l && staleThenHealthy k.poolLim l then o.ok else true) &&
   (if k == .quic && quicKillThenDial l then o.ok else true) &&
   (if k == .reuse && stalePoolHealthyServer l then o.ok else true) &&
   (match o.att with | some a => decide (a ≤ k.lim + 1) | none => true) &&
@@ -548,12 +589,14 @@ def spec (k : Kind) (l : List Attempt) (o : Obs) : Bool :=
   (if l.all (fun a => !a.ctxDone && !a.forcedDone) then o.t == "prompt" else true) &&
   o.woke && o.leak == 0
 
-def specReason (k : Kind) (l : List Attempt) (o : Obs) : String :=
+def spec (k : Kind) (l : List Attempt) (o : Obs) : Bool := specCore k (specView k l) o
+
+def specReasonCore (k : Kind) (l : List Attempt) (o : Obs) : String :=
   if o.t == "late" then "late"
   else if (match (if plainPrefix k l then freshFailureAt k.poolLim l else none) with
       | some j => o.ok || (match o.att with | some a => decide (a > j + 1) | none => false)
       | none => false) then "fresh-failure-not-returned"
-  else if k != .doh && plainPrefix k l && staleThenHealthy k.poolLim l && !o.ok then "stale-not-survived"
+  else if plainPrefix k l && staleThenHealthy k.poolLim l && !o.ok then "stale-not-survived"
   else if k == .quic && quicKillThenDial l && !o.ok then "dying-conn-not-survived"
   else if k == .reuse && stalePoolHealthyServer l && !o.ok then "stale-pool-not-survived"
   else if (match o.att with | some a => decide (a > k.lim + 1) | none => false) then "unbounded"
@@ -562,6 +605,8 @@ def specReason (k : Kind) (l : List Attempt) (o : Obs) : String :=
   else if !o.woke then "waiters-not-woken"
   else if o.leak != 0 then "dead-conn-not-closed"
   else "other"
+
+def specReason (k : Kind) (l : List Attempt) (o : Obs) : String := specReasonCore k (specView k l) o
 
 def strOfOptNat : Option Nat → String
   | none => "-"
@@ -606,8 +651,8 @@ def run (case impl : String) : String × String :=
   out : `res=<o|e per waiter> woke=<0|1> t=<prompt|intime|late> leak=<n>` -/
 
 def waiterOracle (fresh nextOk : Bool) : Oracle := fun i =>
-  if i = 0 then ⟨if fresh then .fresh else .pooled, none, false, none, false, false⟩
-  else if nextOk then ⟨.fresh, some 1, false, none, false, false⟩ else ⟨.dialErr, none, false, none, false, false⟩
+  if i = 0 then ⟨if fresh then .fresh else .pooled, none, false, none, false, false, false⟩
+  else if nextOk then ⟨.fresh, some 1, false, none, false, false, false⟩ else ⟨.dialErr, none, false, none, false, false, false⟩
 
 /-- all waiters are parked on `c`, `c` dies; each one whose `connDone` arm is ready returns an
     error from `exchange` and goes through the pipeline retry loop -/
